@@ -177,3 +177,35 @@ package deb
 //@     invariant [C02] no-blank-items-so-far: forall(0, len(result), func(i int) bool { return result[i] != "" && result[i] == strings.TrimSpace(result[i]) })
 //
 //@ pure func writeControl$2(strs string) (result string)
+//
+//@ import "time"
+//
+//@ spec func ctlItem(name string, mode int64, body string, mtime time.Time) string {
+//@     return ufStr("tarHead", name, mode, int64(len(body)), byte('0'), "", "", "", mtime) + body
+//@ }
+//
+//@ spec func scriptItem(slot, path string, mode int64, mtime time.Time) string {
+//@     if path == "" { return "" }
+//@     return ctlItem(slot, mode, fsContent(path), mtime)
+//@ }
+//
+//@ spec func triggersItem(body string, mtime time.Time) string {
+//@     if len(body) == 0 { return "" }
+//@     return ctlItem("./triggers", 0o644, body, mtime)
+//@ }
+//
+//@ inline func createControl(instSize int64, md5sums []byte, info *nfpm.Info) (controlTarGz []byte, err error)
+//@   requires info != nil
+//@   requires !ghostFlag("failed")
+//@   ensures [C09 C08 C03 C02] control-archive-members: implies(err == nil, globStr("tarManifestAtClose") ==
+//@       ctlItem("./control", 0o644, debControlHead(info, instSize/1024) + renderedRange(".Info.Deb.Fields") + "\n", info.MTime) +
+//@       ctlItem("./md5sums", 0o644, string(md5sums), info.MTime) +
+//@       ctlItem("./conffiles", 0o644, string(lastBytes("conffiles")), info.MTime) +
+//@       triggersItem(string(lastBytes("createTriggers")), info.MTime) +
+//@       scriptItem("./config", info.Deb.Scripts.Config, 0o755, info.MTime) +
+//@       scriptItem("./postinst", info.Scripts.PostInstall, 0o755, info.MTime) +
+//@       scriptItem("./postrm", info.Scripts.PostRemove, 0o755, info.MTime) +
+//@       scriptItem("./preinst", info.Scripts.PreInstall, 0o755, info.MTime) +
+//@       scriptItem("./prerm", info.Scripts.PreRemove, 0o755, info.MTime) +
+//@       scriptItem("./rules", info.Deb.Scripts.Rules, 0o755, info.MTime) +
+//@       scriptItem("./templates", info.Deb.Scripts.Templates, 0o644, info.MTime))
